@@ -464,9 +464,11 @@ Definition uv_loop_init (first_loop : bool) (l : ledger) (w : world) : out :=
           end
         | _ => (false, l, w)
         end in
-      (* uv__platform_loop_delete: closes the ring, not backend_fd *)
+      (* fail_signal_init: uv__platform_loop_delete closes the ring; backend_fd is closed
+         right after it (loop.c:116-121) *)
       let loop_delete (l : ledger) (w : world) : ledger * world :=
-        if ring then let '(_, l, w) := uv_close_fd l w in (l, w) else (l, w) in
+        let '(l, w) := if ring then let '(_, l, w) := uv_close_fd l w in (l, w) else (l, w) in
+        let '(_, l, w) := uv_close_fd l w in (l, w) in
       (* uv__signal_global_once_init *)
       let '(ab, l, w) :=
         if first_loop then
@@ -484,7 +486,7 @@ Definition uv_loop_init (first_loop : bool) (l : ledger) (w : world) : out :=
         let '(p, w) := sys PPipe2 w in
         match p with
         | Fail e => let '(l, w) := loop_delete l w in
-                    mkO (Ret (RcErr e)) (add_mem (-1) l) None w     (* backend_fd stays open *)
+                    mkO (Ret (RcErr e)) (add_mem (-1) l) None w
         | Intr => let '(l, w) := loop_delete l w in
                   mkO (Ret RcIntr) (add_mem (-1) l) None w
         | Ok =>
@@ -499,7 +501,7 @@ Definition uv_loop_init (first_loop : bool) (l : ledger) (w : world) : out :=
             | Ok => mkO (Ret RcOk) (add_hq 2 (add_fds 1 l)) None w
             | Fail er =>
               (* fail_async_init: uv__signal_loop_cleanup closes the signal pipe;
-                 uv__platform_loop_delete; free lfields and watchers; backend_fd stays open *)
+                 uv__platform_loop_delete; close backend_fd; free lfields and watchers *)
               let '(_, l, w) := uv_close_fd l w in
               let '(_, l, w) := uv_close_fd l w in
               let '(l, w) := loop_delete l w in
